@@ -152,6 +152,25 @@ func (r *Runner) monC11(s *Step) {
 		}
 	}
 	if len(missing) > 0 {
+		// A node whose memory or CPU is (nearly) over-committed by what the runtime runs on it is a capacity question whatever
+		// the order in which Synchronize re-allocates: whether everything fits then depends on map iteration order in the
+		// plugin and in the reference alike. Such restarts are counted, not judged.
+		var memDemand int64
+		cpuDemand := 0
+		for _, c := range live {
+			amt := c.MemLim
+			if c.MemReq > amt {
+				amt = c.MemReq
+			}
+			memDemand += amt
+			cpuDemand += c.ReqMilli
+		}
+		if memDemand > Machine().TotalMemBytes()*8/10 || cpuDemand > 900*len(Machine().OnlineCPUs()) {
+			r.Count("c11_unallocated_on_overcommitted_node")
+			missing = nil
+		}
+	}
+	if len(missing) > 0 {
 		// Reference: a plugin started WITHOUT any cache and synchronized with the same runtime
 		// lists. Only if that one gives every live container an allocation (so neither capacity
 		// nor an invalid annotation is the reason) is the restarted plugin's omission a violation.
